@@ -7,6 +7,8 @@ import Kingdon.Model.Blade
 import Kingdon.Model.Poly
 import Kingdon.Model.Codegen
 import Kingdon.Model.OpDict
+import Kingdon.Model.KPoly
+import Kingdon.Model.Construct
 open Kingdon
 
 def hexDigit? (ch : Char) : Option Nat :=
@@ -41,6 +43,55 @@ def parseCfg (s : String) : Option Cfg :=
       let names ← (bs.splitOn ",").mapM parseName
       some (Cfg.custom sig names)
   | _ => none
+
+/-- coefficient values of the construct protocol: integers or (possibly negated) symbols -/
+inductive CV where
+  | i (n : Int)
+  | s (neg : Bool) (nm : String)
+deriving BEq
+instance : Neg CV := ⟨fun | .i n => .i (-n) | .s b nm => .s (!b) nm⟩
+instance : Zero CV := ⟨.i 0⟩
+def CV.render : CV → String
+  | .i n => toString n
+  | .s b nm => (if b then "-" else "") ++ nm
+
+def parseKeyIn (s : String) : Option Con.KeyIn :=
+  match s.toNat? with
+  | some k => some (.int k)
+  | none => (parseName s).map .name
+
+def parseCVList (s : String) : Option (List CV) :=
+  if s == "" then some [] else (s.splitOn ",").mapM fun t => t.toInt?.map CV.i
+
+def parsePairs {κ : Type} (pk : String → Option κ) (s : String) : Option (List (κ × CV)) :=
+  if s == "" then some [] else (s.splitOn ",").mapM fun t =>
+    match t.splitOn "=" with
+    | [k, v] => do let k ← pk k; let v ← v.toInt?; some (k, CV.i v)
+    | _ => none
+
+def parseForm (vals keys name grades items : String) : Option (Con.Form CV) := do
+  let values ← if vals == "-" then some Con.ValuesIn.none
+    else if vals.startsWith "L:" then (parseCVList (vals.drop 2).toString).map Con.ValuesIn.list
+    else if vals.startsWith "M:" then (parsePairs parseKeyIn (vals.drop 2).toString).map Con.ValuesIn.mapping
+    else none
+  let keys ← if keys == "-" then some none
+    else if keys.startsWith "K:" then
+      let body := (keys.drop 2).toString
+      if body == "" then some (some []) else ((body.splitOn ",").mapM parseKeyIn).map some
+    else none
+  let nm := if name == "-" then none else some name
+  let grades ← if grades == "-" then some none
+    else if grades.startsWith "G:" then (parseIntList (grades.drop 2).toString).map some
+    else none
+  let items ← if items == "-" then some []
+    else if items.startsWith "I:" then parsePairs parseName (items.drop 2).toString
+    else none
+  some { values := values, keys := keys, name := nm, grades := grades, items := items }
+
+def renderErr : Con.Err → String
+  | .valueError => "raise:ValueError"
+  | .typeError => "raise:TypeError"
+  | .keyError => "raise:KeyError"
 
 def renderMV (x : MV Poly) : String :=
   let x := x.filter fun (_, p) => !p.isZero
@@ -115,6 +166,25 @@ def step (line : String) : String :=
     match parseCfg cs, parseNatList gs, parseNatList kx with
     | some c, some gs, some kx => renderMV (gradeSel c gs (symMV 0 kx))
     | _, _, _ => "bad-op"
+  | "kpoly" :: prog => KP.runProgram prog
+  | ["construct", cs, g, vals, keys, name, grades, items] =>
+    let grades' := if grades.startsWith "C:" then
+        match parseCfg cs with
+        | some c => match Con.ctorGrades c.d (grades.drop 2).toString with
+          | some gs => "G:" ++ joinC (gs.map toString)
+          | none => "bad"
+        | none => "bad"
+      else grades
+    match parseCfg cs, parseForm vals keys name grades' items with
+    | some c, some f =>
+      match Con.construct c (g == "1") (fun nm suffix => CV.s false (nm ++ (renderName suffix).drop 1)) f with
+      | .ok (ks, vs) => s!"ok keys={joinC (ks.map toString)} values={joinC (vs.map CV.render)}"
+      | .error e => renderErr e
+    | _, _ => "bad-op"
+  | ["getattr", cs, ks, vs, sp] =>
+    match parseCfg cs, parseNatList ks, parseCVList (if vs == "-" then "" else vs), parseName sp with
+    | some c, some ks, some vs, some sp => (Con.getattr c (ks, vs) sp).render
+    | _, _, _, _ => "bad-op"
   | "fname" :: cs :: pre :: keys =>
     match parseCfg cs, keys.mapM parseNatList with
     | some c, some kss =>
